@@ -407,14 +407,108 @@ def build(uni):
         "ghost integer $pos; a base variable name denotes one symbol "
         "throughout the region and no two signatures of the region share "
         "their base name")
-    return cs
+    return cs + build_validate(uni)
+
+
+def build_validate(uni):
+    """ParallelLoopTrans.validate: without the 'force' / 'sequential'
+    options a loop is accepted only if the dependence analysis reports its
+    iterations independent - or every message it gives is the 'scalar
+    written once' warning (the documented private-scalar exclusion)."""
+    PLT = "psyir/transformations/parallel_loop_trans.py"
+    AL0 = z3.Const("H0_$alloc", z3.ArraySort(Ref, BOOL))
+    INDEP = z3.Function("independent_iterations_answer", Ref, BOOL)
+    MSGS = z3.Function("messages_of_the_analysis", Ref, Ref)
+    info = uni.repo.cls("DTCode", "psyir/tools/dependency_tools.py")
+    uni.enums["DTCode"] = EnumDesc("DTCode", list(info.consts))
+    uni.fields.update({"$code": "enum:DTCode", "$loop_type": "str"})
+
+    def construct_hook(it, cname, args, kw, st, fr):
+        if cname == "DependencyTools":
+            return it.alloc(st, "DependencyTools", None, "dep_tools")
+        if cname == "VariablesAccessInfo":
+            return it.alloc(st, "VariablesAccessInfo", None, "var_accesses")
+        return None
+    uni.construct_hook = construct_hook
+
+    def h_msgs(it, s, a, k, st, fr):
+        r = MSGS(fr.env["node"].e)
+        st.assume(z3.And(r != NULLC, z3.Select(AL0, r)))
+        lst = VRef(r, "list", "Message")
+        q = z3.Int("mq")
+        st.assume(z3.ForAll([q], z3.Implies(
+            z3.And(0 <= q, q < it.length(lst, st)),
+            z3.Select(it.list_items(lst, st), q) != NULLC)))
+        return lst
+
+    def field_hook(attr):
+        def h(it, selfv, args, kw, st, fr):
+            return it.getattr(VRef(selfv.e, "Obj"), attr, st, fr)
+        return h
+    uni.method_hooks.update({
+        "LoopTrans.validate": lambda it, s, a, k, st, fr: NONE,
+        "Loop.independent_iterations": lambda it, s, a, k, st, fr: VBool(
+            INDEP(s.e)),
+        "PSyLoop.independent_iterations": lambda it, s, a, k, st, fr: VBool(
+            INDEP(s.e)),
+        "DependencyTools.get_all_messages": h_msgs,
+        "PSyLoop.loop_type": field_hook("$loop_type"),
+        "Loop.loop_type": field_hook("$loop_type"),
+        "Node.__getitem__": lambda it, s, a, k, st, fr: VRef(
+            fresh("inner_node", Ref), "Node"),
+    })
+    uni.method_hooks["Message.code"] = field_hook("$code")
+    uni.consts.update({
+        "INDEP": VFunc("hook", fn=lambda it, a, k, st, fr: VBool(
+            INDEP(a[0].e))),
+        "MSGS": VFunc("hook", fn=lambda it, a, k, st, fr: VRef(
+            MSGS(a[0].e), "list", "Message")),
+        "CODE": VFunc("hook", fn=lambda it, a, k, st, fr: it.getattr(
+            VRef(a[0].e, "Obj"), "$code", st, fr)),
+    })
+    uni.preds.update({
+        "OPT": (["o", "k"], "o is not None and k in o and o[k] != 0"),
+    })
+    c = Contract(
+        f"{PLT}:ParallelLoopTrans.validate",
+        params={"self": "ParallelLoopTrans", "node": "Loop",
+                "options": "dict[str,int]"},
+        requires=[("node", "node is not None")],
+        ensures=[
+            ("accepted_without_force_only_if_iterations_are_independent",
+             "implies(not OPT(options, 'force') and "
+             "not OPT(options, 'sequential'), INDEP(node) or "
+             "forall(lambda q: implies(0 <= q and q < len(MSGS(node)), "
+             "CODE(at(MSGS(node), q)) == DTCode.WARN_SCALAR_WRITTEN_ONCE)))"),
+        ],
+        raises={"TransformationError": None},
+        modifies=["$len", "$items.ref", "$items.str", "$dom.str",
+                  "$map.str.int", "$card"],
+        covers=[("accepts", "not OPT(options, 'force')"),
+                ("raise:TransformationError", "True")])
+    uni.contracts["ParallelLoopTrans.validate:top"] = c
+    uni.loopspecs["ParallelLoopTrans.validate"] = {
+        0: LoopSpec(invariants=[("count", "loop_count >= 0")], modifies=[]),
+        1: LoopSpec(invariants=[
+            ("iter", "_iter is MSGS(node)"),
+            ("all_warnings_so_far",
+             "forall(lambda q: implies(0 <= q and q < _k, "
+             "CODE(at(MSGS(node), q)) == DTCode.WARN_SCALAR_WRITTEN_ONCE))")],
+            modifies=[]),
+    }
+    uni.note_assumption(
+        "ParallelLoopTrans.validate: independent_iterations and "
+        "get_all_messages are used through their answers (the analysis "
+        "itself is C08 / the array rule above); the collapse counting loop "
+        "is over an opaque nest")
+    return [c]
 
 
 TRUSTED = [
     "pyvc VC generator and z3",
     "that the stated classification conditions imply equal results under "
     "every schedule (Bernstein's conditions; not mechanised)",
-    "NOT under contract: ParallelLoopTrans.validate, OMPLoopTrans.apply, the "
+    "NOT under contract: OMPLoopTrans.apply, the "
     "lowering of the clause lists, _partition, "
     "_independent_multi_subscript, reductions",
 ]
@@ -436,6 +530,16 @@ def replay(name, ob, model, uni):
 def replay_known(k, uni):
     from realise import C09 as R
     return R.known(k["id"])
+
+
+def bounded(uni, tier, seed):
+    """used only when a deductive obligation is undecided"""
+    from realise import C09 as R
+    for f in (R.validate_cases, R.array_cases):
+        rp = f()
+        if rp.get("confirmed"):
+            return rp
+    return {"confirmed": False}
 
 
 def extra(uni, tier, seed):
